@@ -377,11 +377,15 @@ pub struct RunArgs {
     pub seed: u64,
     pub evidence: PathBuf,
     pub scale: f64,
+    /// summary written by fuzz/run_fuzz.sh (thorough tier of the fuzzed properties)
+    pub fuzz_summary: Option<PathBuf>,
 }
 
 struct WorkerOutcome<C> {
     ctx: Ctx,
     failure: Option<(C, String)>,
+    /// the first failing case as generated (before shrinking) with its violation
+    first_failure: Option<(C, Violation)>,
 }
 
 fn run_worker<P: Property>(p: Arc<P>, tier: Tier, seed: u64, worker: u32, cases: u32, shrink: u32, known: Arc<KnownFindings>) -> WorkerOutcome<P::Case> {
@@ -398,6 +402,7 @@ fn run_worker<P: Property>(p: Arc<P>, tier: Tier, seed: u64, worker: u32, cases:
     let mut runner = TestRunner::new_with_rng(config, rng);
     let strategy = p.strategy(tier);
     let ctx = RefCell::new(Ctx::new(tier, known));
+    let first_failure: RefCell<Option<(P::Case, Violation)>> = RefCell::new(None);
     let beat = Arc::new(AtomicU64::new(0));
     WATCH.lock().unwrap().push(beat.clone());
     let result = runner.run(&strategy, |case| {
@@ -426,6 +431,9 @@ fn run_worker<P: Property>(p: Arc<P>, tier: Tier, seed: u64, worker: u32, cases:
                 Ok(())
             }
             Err(v) => {
+                if first_failure.borrow().is_none() {
+                    *first_failure.borrow_mut() = Some((case.clone(), v.clone()));
+                }
                 c.counting = false;
                 STOP.store(true, Ordering::Relaxed);
                 Err(TestCaseError::fail(format!("{}: {}", v.clause, v.detail)))
@@ -441,7 +449,7 @@ fn run_worker<P: Property>(p: Arc<P>, tier: Tier, seed: u64, worker: u32, cases:
             std::process::exit(2);
         }
     };
-    WorkerOutcome { ctx: ctx.into_inner(), failure }
+    WorkerOutcome { ctx: ctx.into_inner(), failure, first_failure: first_failure.into_inner() }
 }
 
 pub fn write_replay<P: Property>(p: &P, args: &RunArgs, case: &P::Case, v: &Violation) -> PathBuf {
@@ -605,11 +613,16 @@ pub fn run_property<P: Property>(p: P, args: RunArgs) -> i32 {
                             // Re-derive the violation on the shrunk case, deterministically.
                             let mut c = Ctx::new(args.tier, known.clone());
                             c.counting = false;
-                            let v = match guarded_check(&*p, &case, &mut c) {
-                                Err(v) => v,
-                                Ok(()) => Violation { clause: "unstable".into(), detail: format!("shrunk case passed on re-run; original failure: {}", _msg) },
-                            };
-                            failure = Some((case, v));
+                            match guarded_check(&*p, &case, &mut c) {
+                                Err(v) => failure = Some((case, v)),
+                                Ok(()) => {
+                                    // schedule-dependent failure: the shrunk case passed on re-run; report the case as first generated
+                                    match o.first_failure {
+                                        Some((c0, v0)) => failure = Some((c0, Violation { clause: v0.clause, detail: format!("{} [schedule-dependent: the shrunk case passed when re-run; this is the case as first generated]", v0.detail) })),
+                                        None => failure = Some((case, Violation { clause: "unstable".into(), detail: format!("shrunk case passed on re-run; original failure: {}", _msg) })),
+                                    }
+                                }
+                            }
                         }
                     }
                     total.merge(o.ctx);
@@ -622,7 +635,19 @@ pub fn run_property<P: Property>(p: P, args: RunArgs) -> i32 {
         }
     }
 
-    let extra = if failure.is_none() { p.extra_coverage(args.tier) } else { None };
+    let mut extra = if failure.is_none() { p.extra_coverage(args.tier) } else { None };
+    let mut fuzz_crash: Option<String> = None;
+    if let Some(fs) = &args.fuzz_summary {
+        if let Ok(txt) = std::fs::read_to_string(fs) {
+            if let Ok(v) = serde_json::from_str::<Value>(&txt) {
+                fuzz_crash = v.get("crash_artifact").and_then(|x| x.as_str()).map(|x| x.to_string());
+                if let Some(n) = v.get("executions").and_then(|x| x.as_u64()) {
+                    total.evaluations += n;
+                }
+                extra = Some(("fuzz".to_string(), v));
+            }
+        }
+    }
     let wall = started.elapsed().as_secs_f64();
     let _ = std::panic::take_hook();
 
@@ -639,6 +664,13 @@ pub fn run_property<P: Property>(p: P, args: RunArgs) -> i32 {
             out_line(&format!("violated clause: {}", v.clause));
             out_line(&format!("detail: {}", v.detail));
             out_line(&format!("VIOLATION property={} replay={}", p.id(), path.display()));
+            1
+        }
+        None if fuzz_crash.is_some() => {
+            let art = fuzz_crash.unwrap();
+            write_evidence(&*p, &args, &total, &selftest, wall, 1, extra, enumerated_ok);
+            out_line("violated clause: the coverage-guided fuzz target reported a violation (oracle inside the target); replay the artifact to see it");
+            out_line(&format!("VIOLATION property={} replay={}", p.id(), art));
             1
         }
         None => {
